@@ -77,6 +77,7 @@ func runC13(p *Prog, r *Report) {
 	c13Addressed(p, r)
 	c13Cutsets(p, r)
 	c13Identity(p, r)
+	c13PluginIdentityUntouched(p, r, "D9-identity")
 	r.Rule("D10-parent-origin", "pom.xml writer: a parent's requirements are filed under the path of the parent file that was opened")
 	c13ParentOrigin(p, r, "D10-parent-origin")
 }
